@@ -149,10 +149,107 @@ impl Pred {
     }
 }
 
+/// The entry point a NESTED emission goes through: a destination leaf (`ES::Fwd`) or a filter leaf that
+/// logs its decision (`FS::Audit`) re-emits the event it is handed into ANOTHER runtime this way, while the
+/// emission that reached it is still in flight on the same thread.
+#[derive(Serialize, Deserialize, Debug, Clone, Copy, PartialEq)]
+pub enum Via {
+    /// `emit_core::emit(rt.emitter(), rt.filter(), rt.ctxt(), rt.clock(), &evt)`
+    Core,
+    /// `rt.emit(&evt)`
+    RtEmit,
+    /// `<Runtime as Emitter>::emit(rt, &evt)`
+    RtAsEmitter,
+    /// `emit::emit!(rt: rt, [when: w,] evt: &evt)`
+    MacroEvt,
+    /// `emit::emit!(rt: rt, [when: w,] evt: &evt, "fwd override")`
+    MacroEvtTpl,
+    /// `emit::emit!(rt: rt, [when: w,] mdl: evt.mdl(), extent: evt.extent(), props: evt.props(), "<literal>")`:
+    /// site 0 = `"fwd plain"`, site 1 = `"fwd {a}"` capturing the leaf's `a`
+    MacroTpl(u8),
+    /// the level macros `debug! / info! / warn! / error!` (index into LEVELS) with
+    /// `rt:, [when:,] mdl:, extent:, props:, "leveled"`: `lvl` is captured in front of the incoming props
+    Level(u8),
+}
+
+pub const VIA_TPL_SITES: u8 = 2;
+
+impl Via {
+    pub fn is_macro(&self) -> bool {
+        matches!(self, Via::MacroEvt | Via::MacroEvtTpl | Via::MacroTpl(_) | Via::Level(_))
+    }
+    pub fn class(&self) -> &'static str {
+        match self {
+            Via::Core => "nested-via:core-emit",
+            Via::RtEmit => "nested-via:runtime-emit",
+            Via::RtAsEmitter => "nested-via:runtime-as-emitter",
+            Via::MacroEvt => "nested-via:macro-evt",
+            Via::MacroEvtTpl => "nested-via:macro-evt-tpl",
+            Via::MacroTpl(_) => "nested-via:macro-template",
+            Via::Level(_) => "nested-via:level-macro",
+        }
+    }
+}
+
+/// When a filter leaf that logs its decision emits into its audit runtime.
+#[derive(Serialize, Deserialize, Debug, Clone, Copy, PartialEq)]
+pub enum AuditOn {
+    Always,
+    Accept,
+    Reject,
+}
+
+impl AuditOn {
+    pub fn fires(&self, verdict: bool) -> bool {
+        match self {
+            AuditOn::Always => true,
+            AuditOn::Accept => verdict,
+            AuditOn::Reject => !verdict,
+        }
+    }
+}
+
+/// A nested emission: the target runtime (own destination tree, own filter, own list-backed ctxt, own
+/// clock), the entry point used, and an optional call-site filter (only the macro entry points carry one).
+#[derive(Serialize, Deserialize, Debug, Clone)]
+pub struct FwdSpec {
+    pub via: Via,
+    /// the value the `"fwd {a}"` site captures
+    pub a: i64,
+    pub when: Option<FS>,
+    pub emitter: ES,
+    pub filter: FS,
+    pub ctxt: Vec<(u8, Val)>,
+    pub clock: Option<Ts>,
+}
+
+impl FwdSpec {
+    pub fn uses_when(&self) -> bool {
+        self.via.is_macro() && self.when.is_some()
+    }
+    pub fn number(&mut self, next: &mut u32) {
+        if let Some(w) = self.when.as_mut() {
+            w.number(next);
+        }
+        self.filter.number(next);
+        self.emitter.number(next);
+    }
+    pub fn has_erased(&self) -> bool {
+        self.emitter.has_erased() || self.filter.has_erased() || self.when.as_ref().map(|w| w.has_erased()).unwrap_or(false)
+    }
+    pub fn nodes(&self) -> usize {
+        self.emitter.nodes() + self.filter.nodes() + self.when.as_ref().map(|w| w.nodes()).unwrap_or(0)
+    }
+}
+
 #[derive(Serialize, Deserialize, Debug, Clone)]
 pub enum FS {
     /// recording leaf implementing `Filter` directly
     Leaf { id: u32, pred: Pred },
+    /// recording leaf that LOGS ITS DECISION: evaluates `pred`, records what it saw, and — when `on`
+    /// fires for the verdict — emits the event it was handed into its own audit runtime through `fwd.via`
+    /// before answering
+    Audit { id: u32, pred: Pred, on: AuditOn, fwd: Box<FwdSpec> },
     /// recording leaf built with `emit::filter::from_fn`
     FromFn { id: u32, pred: Pred },
     /// a plain `fn(Event<&dyn ErasedProps>) -> bool` pointer out of a fixed table
@@ -208,6 +305,9 @@ pub enum ES {
     AssertInternal(Box<ES>),
     /// `inner.wrap_emitter(wrapping)`
     Wrap(Box<ES>, WS),
+    /// a forwarding destination: re-emits every event it receives into ANOTHER runtime (own destination
+    /// tree, filter, ctxt, clock) through a generated entry point (generic or macro, with or without `when:`)
+    Fwd(Box<FwdSpec>),
     /// a nested `Runtime` used as an emitter, with its own filter, ctxt (list backed) and clock
     Rt {
         emitter: Box<ES>,
@@ -286,6 +386,11 @@ impl FS {
                 *id = *next;
                 *next += 1;
             }
+            FS::Audit { id, fwd, .. } => {
+                *id = *next;
+                *next += 1;
+                fwd.number(next);
+            }
             FS::FnPtr(_) | FS::Empty | FS::Always | FS::MinLevel { .. } | FS::KindIs(_) | FS::Opt(None) => {}
             FS::And(a, b) | FS::Or(a, b) => {
                 a.number(next);
@@ -303,7 +408,7 @@ impl FS {
 
     pub fn composites(&self) -> usize {
         match self {
-            FS::Leaf { .. } | FS::FromFn { .. } | FS::FnPtr(_) | FS::Empty | FS::Always | FS::MinLevel { .. } | FS::KindIs(_) => 0,
+            FS::Leaf { .. } | FS::Audit { .. } | FS::FromFn { .. } | FS::FnPtr(_) | FS::Empty | FS::Always | FS::MinLevel { .. } | FS::KindIs(_) => 0,
             FS::Opt(None) => 1,
             FS::And(a, b) | FS::Or(a, b) => 1 + a.composites() + b.composites(),
             FS::Opt(Some(a))
@@ -319,6 +424,7 @@ impl FS {
     pub fn has_erased(&self) -> bool {
         match self {
             FS::Erased(_) | FS::ErasedPlain(_) => true,
+            FS::Audit { fwd, .. } => fwd.has_erased(),
             FS::Leaf { .. } | FS::FromFn { .. } | FS::FnPtr(_) | FS::Empty | FS::Always | FS::MinLevel { .. } | FS::KindIs(_) | FS::Opt(None) => false,
             FS::And(a, b) | FS::Or(a, b) => a.has_erased() || b.has_erased(),
             FS::Opt(Some(a)) | FS::Boxed(a) | FS::Arc(a) | FS::Ref(a) | FS::AssertInternal(a) => a.has_erased(),
@@ -328,6 +434,7 @@ impl FS {
     pub fn nodes(&self) -> usize {
         match self {
             FS::Leaf { .. } | FS::FromFn { .. } | FS::FnPtr(_) | FS::Empty | FS::Always | FS::MinLevel { .. } | FS::KindIs(_) | FS::Opt(None) => 1,
+            FS::Audit { fwd, .. } => 1 + fwd.nodes(),
             FS::And(a, b) | FS::Or(a, b) => 1 + a.nodes() + b.nodes(),
             FS::Opt(Some(a))
             | FS::Boxed(a)
@@ -344,7 +451,7 @@ impl FS {
     /// the leaf's predicate as a `Pred`, for the leaves that have one
     pub fn leaf_pred(&self) -> Option<Pred> {
         match self {
-            FS::Leaf { pred, .. } | FS::FromFn { pred, .. } => Some(pred.clone()),
+            FS::Leaf { pred, .. } | FS::Audit { pred, .. } | FS::FromFn { pred, .. } => Some(pred.clone()),
             FS::MinLevel { min, default } => Some(Pred::MinLevel {
                 min: *min,
                 default: *default,
@@ -360,6 +467,8 @@ impl FS {
     pub fn visit_preds(&self, root: bool, under_root: bool, f: &mut impl FnMut(&Pred, bool)) {
         match self {
             FS::Leaf { pred, .. } => f(pred, root || under_root),
+            // held without an erasure in front of it only as the root (trees::FH::Audit)
+            FS::Audit { pred, .. } => f(pred, root),
             FS::FromFn { pred, .. } => f(pred, false),
             FS::MinLevel { .. } | FS::KindIs(_) => f(&self.leaf_pred().unwrap(), root || under_root),
             FS::FnPtr(_) | FS::Empty | FS::Always | FS::Opt(None) => {}
@@ -432,6 +541,7 @@ impl ES {
                 filter.number(next);
                 emitter.number(next);
             }
+            ES::Fwd(fw) => fw.number(next),
         }
     }
 
@@ -449,6 +559,7 @@ impl ES {
             | ES::AssertInternal(a) => 1 + a.composites(),
             ES::Wrap(a, _) => 1 + a.composites(),
             ES::Rt { emitter, .. } => 1 + emitter.composites(),
+            ES::Fwd(fw) => 1 + fw.emitter.composites(),
         }
     }
 
@@ -460,12 +571,14 @@ impl ES {
             ES::Opt(Some(a)) | ES::Boxed(a) | ES::Arc(a) | ES::Ref(a) | ES::AssertInternal(a) => a.has_erased(),
             ES::Wrap(a, w) => a.has_erased() || w.has_erased(),
             ES::Rt { emitter, filter, .. } => emitter.has_erased() || filter.has_erased(),
+            ES::Fwd(fw) => fw.has_erased(),
         }
     }
 
     pub fn has_nested_rt(&self) -> bool {
         match self {
             ES::Rt { .. } => true,
+            ES::Fwd(fw) => fw.emitter.has_nested_rt(),
             ES::Leaf { .. } | ES::FromFn { .. } | ES::FnPtr(_) | ES::Empty | ES::Opt(None) => false,
             ES::And(a, b) => a.has_nested_rt() || b.has_nested_rt(),
             ES::Opt(Some(a))
@@ -492,6 +605,7 @@ impl ES {
             | ES::ErasedPlain(a)
             | ES::AssertInternal(a) => a.has_wrap(),
             ES::Rt { emitter, .. } => emitter.has_wrap(),
+            ES::Fwd(fw) => fw.emitter.has_wrap(),
         }
     }
 
@@ -514,6 +628,7 @@ impl ES {
                     }
             }
             ES::Rt { emitter, filter, .. } => 1 + emitter.nodes() + filter.nodes(),
+            ES::Fwd(fw) => 1 + fw.nodes(),
         }
     }
 }
